@@ -247,3 +247,13 @@ Example C04_multiop_nonvacuous :
   qlist_eqb (mspec mw_ok mst_ok) [q (-1); q 10; q 6; q 20; q (-5); q 48; mkq 63 2; q 48; q (-9); q 260; q 198] = true.
 Proof. exact multiop_nonvacuous. Qed.
 Print Assumptions C04_multiop_nonvacuous.
+
+(* declarations are part of the structural key *)
+Theorem C04_declaration_in_key : forall a b, odecl a <> odecl b -> opr_eqb a b = false.
+Proof. exact decl_in_key. Qed.
+Print Assumptions C04_declaration_in_key.
+
+Example C04_declaration_variants_not_merged :
+  mwf mw_decl = true /\ mkeys true mw_decl = [0; 1; 0]%nat /\ canon mw_decl 1 = 1%nat.
+Proof. exact decl_variants_not_merged. Qed.
+Print Assumptions C04_declaration_variants_not_merged.
